@@ -13,6 +13,11 @@
 (*   line      the line number carried by the error (0 = none)             *)
 (*   nlines    number of lines of the input (lines are numbered from 1)    *)
 (*   leaked    helper goroutines that still exist                          *)
+(* The line of an error is the line of the token at which the error is    *)
+(* detected (the first token not accepted, named in the message), lines    *)
+(* numbered from 1, an end-of-line token belonging to the line it ends:    *)
+(* LineLaw in DslConc.tla, ErrLaw in DslLang.tla section 4.  GoodOutcome   *)
+(* only bounds it (what can be said without knowing the token).            *)
 (* DslConc.tla proves (TLC) that every quiescent state of the design has a *)
 (* good observation; DslTrace.tla applies the same predicate to the        *)
 (* observations recorded from the real code.                               *)
